@@ -26,8 +26,66 @@ def make_model(datasets, learner="linear", train_fdr=0.05, max_iter=3, seed=0, d
                          override=override, direction=direction, shuffle=shuffle, rng=seed)
 
 
+def _scrambled_copy(path, rng):
+    """Rewrite the table at `path` in place: same columns, same row count, the rows in another order and the scan numbers
+    permuted independently of them (another experiment written to the same location). Returns the original bytes."""
+    path = Path(path)
+    raw = path.read_bytes()
+    if path.suffix == ".parquet":
+        df = pd.read_parquet(path)
+        df = df.iloc[rng.permutation(len(df))].reset_index(drop=True)
+        for col in df.columns:
+            if col.lower() == "scannr":
+                df[col] = df[col].to_numpy()[rng.permutation(len(df))]
+        df.to_parquet(path, index=False)
+    else:
+        lines = raw.decode().splitlines()
+        head = lines[0].split("\t")
+        body = [ln.split("\t") for ln in lines[1:]]
+        body = [body[int(j)] for j in rng.permutation(len(body))]
+        for ci, col in enumerate(head):
+            if col.lower() == "scannr":
+                vals = [b[ci] for b in body]
+                for b, j in zip(body, rng.permutation(len(body))):
+                    b[ci] = vals[int(j)]
+        path.write_text("\n".join(["\t".join(head)] + ["\t".join(b) for b in body]) + "\n")
+    return raw
+
+
+def history_prelude(paths, folds, seed, counters=None):
+    """Earlier use of the same interpreter and the same file locations: other data (same shape) is written to every path
+    and analysed with another fold count, then the files are restored byte for byte. Nothing of the prelude is judged;
+    whatever it leaves behind in the process (module-level caches, memoised attributes) is the history the observed
+    run has to be independent of."""
+    mokapot = core.import_mokapot()
+    rng = np.random.default_rng([int(seed) & 0xFFFFFFFF, 0x415])
+    saved = {}
+    done = False
+    try:
+        for p in paths:
+            saved[p] = _scrambled_copy(p, rng)
+        ds = read_datasets(paths, 1)
+        tag = recorder.new_run_tag()
+        model = make_model(ds, "linear", 0.05, 2, int(seed) % 1000, 0.0, False, tag=tag)
+        mokapot.brew(ds, model=model, test_fdr=0.2, folds=int(folds) + 1, max_workers=1, rng=int(seed) % 1000 + 1)
+        done = True
+    except Exception:  # the prelude's own outcome is irrelevant
+        pass
+    finally:
+        for p, raw in saved.items():
+            Path(p).write_bytes(raw)
+    return done
+
+
 def run_brew(paths, learner="linear", folds=3, seed=0, test_fdr=0.05, train_fdr=0.05, max_workers=1,
-             subset_max_train=None, max_iter=3, delay=0.0, override=False, read_workers=1, ensemble=False, perturb=None):
+             subset_max_train=None, max_iter=3, delay=0.0, override=False, read_workers=1, ensemble=False, perturb=None,
+             history=None):
+    if history is not None:
+        ok = history_prelude(paths, folds, history)
+        out = run_brew(paths, learner, folds, seed, test_fdr, train_fdr, max_workers, subset_max_train, max_iter, delay,
+                       override, read_workers, ensemble, perturb)
+        out["history_prelude_completed"] = ok
+        return out
     """Returns dict(status, call, datasets, models, scores, descs, log). With `perturb` (a seed) and several workers the
     joblib task functions run under vf.instruments.scheduler (seeded delays, completion orders recorded)."""
     if perturb is not None and max_workers > 1:
